@@ -8,6 +8,10 @@ CASES = [
     ('grow fills with nil', 'a = [1]; a resize 3; a', '[1,nil,nil]'),
     ('shrink keeps the prefix', 'a = [1,2,3]; a resize 1; a', '[1]'),
     ('resize to zero', 'a = [1,2,3]; a resize 0; a', '[]'),
+    ('deleteRange removes the range', 'a = [1,2,3,4]; a deleteRange [1, 2]; a', '[1,4]'),
+    ('deleteRange behind the end deletes nothing', 'a = [1,2]; a deleteRange [5, 6]; a', '[1,2]'),
+    ('deleteRange on an empty array', 'a = []; a deleteRange [0, 1]; a', '[]'),
+    ('deleteRange clamps the end', 'a = [1,2,3]; a deleteRange [1, 9]; a', '[1]'),
     ('deleteAt removes exactly that element', 'a = [1,2,3]; a deleteAt 1; a', '[1,3]'),
     ('deleteAt returns the element', 'a = [1,2,3]; a deleteAt 2', '3'),
     ('deleteAt behind the end leaves the array unchanged', 'a = [1,2,3]; a deleteAt 3; a', '[1,2,3]'),
